@@ -3,7 +3,7 @@
     width zero (NULL; also an empty SEQUENCE, a fixed-size string of size 0...)
     lets [k+1] input octets drive [256^k - 1] loop iterations and as many list
     cells.  The theorem is about the model; harness/c06.py drops inputs the
-    library needs more than 0.4 s for, the witness with k = 3 (16 million
+    library needs more than 0.1 s for, the witness with k = 3 (16 million
     iterations from 4 octets) is in notes/C06.md.
     (* OPEN: oer_dec_steps — for types none of whose SEQUENCE OF / SET OF
        element types can have width zero, an instrumented decoder makes at most
